@@ -17,20 +17,22 @@ const cdrTypePath = modPath + "/cdr/cdrType"
 func init() { register("C02", "other", checkC02) }
 
 func checkC02(c *Ctx, r *Report) {
-	r.Explanation = "Structural clauses decided on go/ssa: (R1) the record that update/release hand to UpdateCDR/CloseCDR/dumpCdrFile is selected by the request's session reference - every look-up of subscriber state it depends on is keyed by that parameter (or it is a record created in the same call from such a one) and it never depends on an element of the subscriber-wide record list; (R2) exactly once: each of create/update/release calls UpdateCDR exactly once on every success path and not in a loop, UpdateCDR appends MultiUnitUsageToCdr(request.MultipleUnitUsage) exactly once, and the two conversion loops append exactly one element per iteration (order and 1:1 by loop shape); (R3) field provenance: each CDR member listed in the table takes its value from the corresponding request member and from no other member of the table; (R4) cause-for-closing is the constant 1 on the partial edge and 0 otherwise; (R5) every BCD octet of the opening timestamp has both nibbles in 0..9 for all time.Time field ranges and all zone offsets, and the sign octet is '+'/'-' selected by the sign of the offset (interval analysis with a nibble transfer function)."
-	r.Undecided = []string{"content equality of decoded records (values are not compared)", "the JSON deep copy of the split path", "which instant the timestamp denotes (only the BCD well-formedness and sign are decided)"}
+	r.Explanation = "Structural clauses decided on go/ssa: (R1) the record that update/release hand to UpdateCDR/CloseCDR/dumpCdrFile is selected by the request's session reference - every look-up of subscriber state it depends on is keyed by that parameter (or it is a record created in the same call from such a one) and it never depends on an element of the subscriber-wide record list; (R2) exactly once: each of create/update/release calls UpdateCDR exactly once on every success path and not in a loop, UpdateCDR appends MultiUnitUsageToCdr(request.MultipleUnitUsage) exactly once, and the two conversion loops append exactly one element per iteration (order and 1:1 by loop shape); (R3) field provenance: each CDR member listed in the table takes its value from the corresponding request member and from no other member of the table; (R4) cause-for-closing is the constant 1 on the partial edge and 0 otherwise; (R5) every BCD octet of the opening timestamp has both nibbles in 0..9 for all time.Time field ranges and all zone offsets, and the sign octet is '+'/'-' selected by the sign of the offset (interval analysis with a nibble transfer function); (R6) wherever a new record is published under a session reference (the split of an over-long record, the re-open after a partial record) its usage list is a fresh empty list at that point - not a re-slice or shallow copy of the closed record's list (shared backing array: later appends overwrite recorded usage) and not an un-emptied deep copy (usage repeated)."
+	r.Undecided = []string{"content equality of decoded records (values are not compared)", "fidelity of the JSON deep copy of the split path for the members other than the usage list", "which instant the timestamp denotes (only the BCD well-formedness and sign are decided)"}
 	r.Assumptions = append(r.Assumptions, "time.Time accessors return values in their documented ranges; |zone offset| < 24 h; years 0..9999")
 	r.rule("C02.R1", "the record used by update/release is selected by the request's session reference only", 4)
 	r.rule("C02.R2", "usage is appended exactly once per request and per reported container", 6)
 	r.rule("C02.R3", "CDR members take their value from the corresponding request member", 10)
 	r.rule("C02.R4", "cause for record closing: 1 on the partial edge, 0 otherwise", 2)
 	r.rule("C02.R5", "opening timestamp: BCD nibbles within 0..9 and sign octet selected by the offset's sign", 9)
+	r.rule("C02.R6", "a record that continues a session starts with a fresh empty usage list (no shared backing array, no repeated containers)", 2)
 
 	c02RecordSelection(c, r)
 	c02ExactlyOnce(c, r)
 	c02Provenance(c, r)
 	c02Cause(c, r)
 	c02Timestamp(c, r)
+	c02SplitFresh(c, r, "C02.R6")
 }
 
 // ---- R1
@@ -596,4 +598,205 @@ func c02Timestamp(c *Ctx, r *Report) {
 	if n < 9 {
 		r.viol("C02.R5", key+"|octets", c.rel(f.Pos()), fmt.Sprintf("only %d of the 9 timestamp octets are assigned", n))
 	}
+}
+
+// ---- R6: a record published under a session reference starts with a fresh,
+// empty usage list.
+//
+// UpdateCDR appends to record.ChargingFunctionRecord.ListOfMultipleUnitUsage.
+// When a function publishes a record for a session (ue.Cdr[ref] = rec: the
+// record opened by create, the split of an over-long record), that record's
+// usage list must be a fresh, empty list at the publication: a re-slice of the
+// old list ([:0]) shares its backing array, so later appends overwrite the
+// usage of the closed record; a copied, un-emptied list repeats it.
+func c02SplitFresh(c *Ctx, r *Report, rule string) {
+	n := 0
+	for _, name := range []string{"Processor.ChargingDataCreate", "Processor.ChargingDataUpdate"} {
+		f := c.fn("internal/sbi/processor", name)
+		eachInstr(f, func(_ *ssa.BasicBlock, _ int, ins ssa.Instruction) {
+			mu, ok := ins.(*ssa.MapUpdate)
+			if !ok {
+				return
+			}
+			ld, ok := mu.Map.(*ssa.UnOp)
+			if !ok || ld.Op != token.MUL {
+				return
+			}
+			if _, ok := isFieldAddr(ld.X, ctxPath, "ChfUe", "Cdr"); !ok {
+				return
+			}
+			n++
+			key := fmt.Sprintf("%s|record published under the session reference #%d", fnKey(f), n)
+			ok2, good, bad, pos := usageListFresh(c, f, mu.Value, mu, 0)
+			if pos == "" {
+				pos = posOf(c, mu)
+			}
+			r.check(ok2, rule, key, pos, good, bad)
+		})
+	}
+}
+
+// usageListFresh decides whether the record value v, as it is at instruction
+// `at` of f, has a fresh empty usage list.
+func usageListFresh(c *Ctx, f *ssa.Function, v ssa.Value, at ssa.Instruction, depth int) (bool, string, string, string) {
+	const listField = "ListOfMultipleUnitUsage"
+	type listStore struct {
+		st   *ssa.Store
+		root ssa.Value
+	}
+	var lss []listStore
+	eachInstr(f, func(_ *ssa.BasicBlock, _ int, ins ssa.Instruction) {
+		st, ok := ins.(*ssa.Store)
+		if !ok {
+			return
+		}
+		fa, ok := st.Addr.(*ssa.FieldAddr)
+		if !ok || fieldName(fa) != listField {
+			return
+		}
+		if ap, ok := pathOf(st.Addr); ok {
+			lss = append(lss, listStore{st, ap.Root})
+		}
+	})
+	for i := 0; i < 4; i++ {
+		v = resolveLocalLoad(v)
+	}
+	ap, ok := pathOf(v)
+	if !ok || len(ap.Elems) != 0 {
+		return false, "", "undecided: the published record " + describe(v) + " is not a locally built object", ""
+	}
+	root := ap.Root
+	state, roots := "unknown", []ssa.Value{root}
+	var callee *ssa.Function
+	var calleeIdx int
+	switch x := root.(type) {
+	case *ssa.Alloc:
+		elem := x.Type().(*types.Pointer).Elem()
+		if _, isPtr := elem.Underlying().(*types.Pointer); isPtr {
+			// a pointer variable: filled by a decoder (deep copy) or by assignments
+			state = "assigned"
+			for _, ref := range *x.Referrers() {
+				if call, ok := ref.(*ssa.Call); ok {
+					if obj := calleeObj(&call.Call); obj != nil && obj.Pkg() != nil && obj.Pkg().Path() == "encoding/json" && obj.Name() == "Unmarshal" {
+						state = "copied"
+					}
+				}
+			}
+		} else {
+			// a composite literal of the record: look at its ChargingFunctionRecord member
+			state = "zero"
+			for _, st := range storesToField(x, "ChargingFunctionRecord") {
+				wa, isAlloc := st.Val.(*ssa.Alloc)
+				if !isAlloc {
+					state = "assigned"
+					continue
+				}
+				roots = append(roots, wa)
+				for _, ref := range *wa.Referrers() {
+					if st2, ok := ref.(*ssa.Store); ok && st2.Addr == ssa.Value(wa) {
+						state = "aliased" // whole-struct copy: the slice header of the source is copied
+					}
+				}
+			}
+		}
+	case *ssa.Call:
+		state, callee = "callee", x.Call.StaticCallee()
+	case *ssa.Extract:
+		if call, ok := x.Tuple.(*ssa.Call); ok {
+			state, callee, calleeIdx = "callee", call.Call.StaticCallee(), x.Index
+		}
+		if lk, ok := x.Tuple.(*ssa.Lookup); ok && isCdrMapValue(lk.X) {
+			state = "existing"
+		}
+	case *ssa.Lookup:
+		if isCdrMapValue(x.X) {
+			state = "existing"
+		}
+	}
+	var last *ssa.Store
+	for _, ls := range lss {
+		match := false
+		for _, rt := range roots {
+			if ls.root == rt {
+				match = true
+			}
+		}
+		if !match || !instrDominates(ls.st, at) {
+			continue
+		}
+		if last == nil || instrDominates(last, ls.st) {
+			last = ls.st
+		}
+	}
+	switch {
+	case last != nil:
+		ok, why := freshEmptySlice(last.Val)
+		return ok, "its usage list is assigned a fresh empty list before it is published", "the usage list of the record published for the session " + why + ": usage of the closed record is overwritten or repeated once further usage is appended", posOf(c, last)
+	case state == "zero":
+		return true, "built from scratch: the usage list is the zero value", "", ""
+	case state == "existing":
+		return true, "the record already published for a session (looked up in ue.Cdr), not a new one", "", ""
+	case state == "callee" && callee != nil && depth < 2 && c.inModule(callee):
+		nret := 0
+		for _, ri := range returnsOf(callee) {
+			if calleeIdx >= len(ri.Vals) || isNilConst(ri.Vals[calleeIdx]) {
+				continue
+			}
+			nret++
+			if ok, _, bad, pos := usageListFresh(c, callee, ri.Vals[calleeIdx], ri.Ret, depth+1); !ok {
+				return false, "", "record returned by " + callee.Name() + ": " + bad, pos
+			}
+		}
+		if nret == 0 {
+			return false, "", "undecided: " + callee.Name() + " returns no record", ""
+		}
+		return true, "record returned by " + callee.Name() + ", where it is built from scratch with an empty usage list", "", ""
+	case state == "copied":
+		return false, "", "the record published for the session is a deep copy of the closed record and its usage list is not emptied: every container already recorded appears a second time", ""
+	case state == "aliased":
+		return false, "", "the record published for the session is a shallow copy of the closed record: both usage lists share one backing array, so appends to the new record overwrite usage of the closed one", ""
+	}
+	return false, "", "undecided: cannot establish that the published record " + describe(v) + " starts with a fresh empty usage list", ""
+}
+
+func freshEmptySlice(v ssa.Value) (bool, string) {
+	switch x := v.(type) {
+	case *ssa.Const:
+		if x.IsNil() {
+			return true, ""
+		}
+	case *ssa.MakeSlice:
+		if n, ok := constInt(x.Len); ok && n == 0 {
+			return true, ""
+		}
+		return false, "is created non-empty"
+	case *ssa.Slice:
+		if a, ok := x.X.(*ssa.Alloc); ok {
+			if arr, ok := a.Type().(*types.Pointer).Elem().Underlying().(*types.Array); ok {
+				lo, hi := int64(0), arr.Len()
+				okc := true
+				if x.Low != nil {
+					lo, okc = constInt(x.Low)
+				}
+				if x.High != nil && okc {
+					hi, okc = constInt(x.High)
+				}
+				if okc && hi-lo == 0 {
+					return true, ""
+				}
+				return false, "is created non-empty"
+			}
+		}
+		return false, "is a re-slice of an existing list (" + describe(x.X) + "), which shares its backing array"
+	}
+	return false, "is " + describe(v) + ", not a fresh empty list"
+}
+
+func isCdrMapValue(m ssa.Value) bool {
+	ld, ok := m.(*ssa.UnOp)
+	if !ok || ld.Op != token.MUL {
+		return false
+	}
+	_, ok = isFieldAddr(ld.X, ctxPath, "ChfUe", "Cdr")
+	return ok
 }
